@@ -7,6 +7,9 @@ CONSTANTS
   ClonesCapLimited = FALSE
   ParseErrorWins = TRUE
   SharedSkipCounter = FALSE
+  FreshStore = TRUE
+  RewindsSeekable = FALSE
+  FlagsReset = TRUE
   MaxRecs = 2
   MaxFields = 2
   FieldIds = {1, 2}
